@@ -83,6 +83,10 @@ func wktCorpus(thorough bool) []*ref.G {
 			simple = append(simple, g)
 		}
 		out = append(out, simple...)
+		for _, dg := range deepCollections(l, 8) {
+			fixAll(dg, l)
+			out = append(out, dg)
+		}
 		// collections
 		members := []*ref.G{
 			ref.NewPoint(l, true, ref.CounterFrom(10)),
@@ -121,6 +125,17 @@ func wktCorpus(thorough bool) []*ref.G {
 		}
 	}
 	return out
+}
+
+// fixAll marks every collection of a model as having the fixed layout l (what the WKT parser produces).
+func fixAll(g *ref.G, l geom.Layout) {
+	if g.Kind != ref.Collection {
+		return
+	}
+	g.Fixed, g.Layout = l, l
+	for _, k := range g.Kids {
+		fixAll(k, l)
+	}
 }
 
 // floatLattice returns the formatting boundary floats.
